@@ -152,6 +152,7 @@ type varCase struct {
 	Prop     string
 	Value    string   // value text with var()
 	Lower    string   // a valid lower-priority value of Prop declared before (may be "")
+	Extra    string   // other declarations of the probe element (e.g. `display: inline` next to a var() float)
 	Observe  []string // longhands observed
 	Shape    []string // tags of what the case contains
 }
@@ -185,7 +186,7 @@ func (c *varCase) doc(decl string, withLower bool) string {
 		d = c.Prop + ": " + decl + ";"
 	}
 	return "<style>html{ " + varsBlock(c.HTMLVars) + "} body{ color: #123456; font-family: Inheritedfam; text-align: center } p{ " +
-		lower + varsBlock(c.PVars) + d + " }</style><p></p>"
+		c.Extra + lower + varsBlock(c.PVars) + d + " }</style><p></p>"
 }
 
 // bindings of <p>: inherited from <html>, overridden on <p>; values tokenized by the real tokenizer,
@@ -216,7 +217,8 @@ type probeSpec struct {
 	// following leaves up to "@)" are comma-separated arguments
 	shapes [][]string
 	lower  string
-	sep    string // "," for comma separated top-level lists
+	sep    string   // "," for comma separated top-level lists
+	extras []string // alternatives of other declarations on the probe element
 }
 
 var fourObs = func(p string) []string { return fourNames(p) }
@@ -238,6 +240,14 @@ var probeSpecs = []probeSpec{
 	{prop: "flex", observe: []string{"flex-grow", "flex-shrink", "flex-basis"}, shapes: [][]string{{"2", "3", "10px"}, {"2"}, {"10px"}, {"none"}}, lower: "9 9 9px"},
 	{prop: "text-align", observe: []string{"text-align-all", "text-align-last"}, shapes: [][]string{{"right"}, {"justify"}}, lower: "left"},
 	{prop: "display", observe: []string{"display"}, shapes: [][]string{{"inline-block"}, {"flex"}}, lower: "table"},
+	// CSS 2.1 9.7: float / position decide the computed display and float: the specified values are read
+	// early by the style constructor, also when they come from a var() declared on the element itself
+	{prop: "float", observe: []string{"display", "float", "position"}, shapes: [][]string{{"left"}, {"right"}}, lower: "none",
+		extras: []string{"display: inline; ", "display: inline-table; ", "display: table-cell; ", "display: inline-block; position: relative; ", ""}},
+	{prop: "position", observe: []string{"display", "float", "position"}, shapes: [][]string{{"absolute"}, {"fixed"}, {"relative"}}, lower: "static",
+		extras: []string{"display: inline; float: right; ", "display: inline-table; ", "float: left; display: list-item; ", "display: inline-flex; float: left; "}},
+	{prop: "display", observe: []string{"display", "float", "position"}, shapes: [][]string{{"inline"}, {"inline-table"}, {"table-row"}, {"inline-block"}}, lower: "block",
+		extras: []string{"float: left; ", "position: absolute; ", "position: fixed; float: right; ", ""}},
 	{prop: "background", observe: []string{"background-color", "background-repeat"}, shapes: [][]string{{"red", "no-repeat"}, {"blue"}}, lower: "green repeat-x"},
 	{prop: "list-style", observe: []string{"list-style-type", "list-style-position"}, shapes: [][]string{{"square", "inside"}, {"decimal"}}, lower: "circle outside"},
 }
@@ -251,6 +261,9 @@ func genVarCase(r *rng.R) *varCase {
 	if r.P(2, 3) {
 		c.Lower = ps.lower
 	}
+	if len(ps.extras) > 0 {
+		c.Extra = ps.extras[r.Intn(len(ps.extras))]
+	}
 	n := 0
 	fresh := func(prefix string) string { n++; return fmt.Sprintf("--%s%d", prefix, n) }
 	bind := func(name, val string) {
@@ -261,7 +274,7 @@ func genVarCase(r *rng.R) *varCase {
 		}
 	}
 	tag := func(s string) { c.Shape = append(c.Shape, s) }
-	pVar := 2 + r.Intn(5) // out of 8
+	pVar := 2 + r.Intn(5)       // out of 8
 	used := map[string]string{} // leaf text -> a custom property already resolving to it
 	wrap := func(leaf string) string {
 		if prev, ok := used[leaf]; ok && r.P(2, 3) {
